@@ -213,14 +213,21 @@ func (sp *Spec) weighJustificationAndFinalization(st *State, total, prevTarget, 
 	st.JustificationBits = bits
 	if bits[1] && bits[2] && bits[3] && oldPrevJ.Epoch+3 == cur {
 		st.FinalizedCheckpoint = oldPrevJ
+		sp.observe("finalize_rule_1_bits234_source4")
 	}
 	if bits[1] && bits[2] && oldPrevJ.Epoch+2 == cur {
 		st.FinalizedCheckpoint = oldPrevJ
+		sp.observe("finalize_rule_2_bits23_source3")
 	}
 	if bits[0] && bits[1] && bits[2] && oldCurJ.Epoch+2 == cur {
 		st.FinalizedCheckpoint = oldCurJ
+		if oldPrevJ.Epoch != oldCurJ.Epoch {
+			sp.observe("finalize_rule_3_with_old_previous_ne_old_current")
+		}
+		sp.observe("finalize_rule_3_bits123_source3")
 	}
 	if bits[0] && bits[1] && oldCurJ.Epoch+1 == cur {
+		sp.observe("finalize_rule_4_bits12_source2")
 		st.FinalizedCheckpoint = oldCurJ
 	}
 	return nil
@@ -414,13 +421,26 @@ func (sp *Spec) processRewardsAndPenalties(st *State) error {
 
 func (sp *Spec) processRegistryUpdates(st *State) {
 	cur := sp.CurrentEpoch(st)
+	ejected := uint64(0)
 	for i := range st.Validators {
 		v := &st.Validators[i]
 		if v.ActivationEligibilityEpoch == FarFuture && v.EffectiveBalance == sp.MAX_EFFECTIVE_BALANCE {
 			v.ActivationEligibilityEpoch = cur + 1
 		}
 		if IsActive(v, cur) && v.EffectiveBalance <= sp.EJECTION_BALANCE {
+			if v.ExitEpoch == FarFuture {
+				ejected++
+			}
 			sp.InitiateValidatorExit(st, uint64(i))
+		}
+	}
+	if ejected > 0 {
+		sp.observe("epochs_with_ejections")
+		if ejected > sp.ChurnLimit(st) {
+			sp.observe("epochs_with_more_ejections_than_churn_limit")
+		}
+		if st.Fork >= Deneb && ejected > sp.ActivationChurnLimit(st) && sp.ActivationChurnLimit(st) < sp.ChurnLimit(st) {
+			sp.observe("deneb_epochs_with_more_ejections_than_the_activation_cap_below_churn_limit")
 		}
 	}
 	var queue []uint64
